@@ -208,7 +208,11 @@ def check_no_panic(ctx, rep, tier):
         covered_fns.add(t.fn_path)
     for name, ty, path, wrapper in ctx.layout_impls():
         if wrapper:
-            run_simple(ctx, rep, path, '%s::map_keycode' % name, opaque=concrete_paths)
+            try:
+                run_simple(ctx, rep, path, '%s::map_keycode' % name, opaque=concrete_paths)
+            except Undecided:
+                # the wrapper does more than delegate (e.g. inspects the result): analyse it with the wrapped layouts inlined
+                run_simple(ctx, rep, path, '%s::map_keycode' % name)
             covered_fns.add(path)
     # ---- 6. everything else that is public and hand-written --------------------
     for f in handwritten:
@@ -217,6 +221,8 @@ def check_no_panic(ctx, rep, tier):
         st = (f.get('impl_self') or {}).get('path')
         if f['vis'] != 'pub' and not f.get('impl_trait'):
             continue   # private helpers are covered where they are inlined
+        if f.get('impl_trait') in ('core::ops::Drop', 'Drop'):
+            continue   # executed as drop glue inside the bodies that drop the value
         if (f.get('impl_trait') or '').startswith('core::fmt::'):
             continue   # formatting impls call into core::fmt (outside the statement's list of operations)
         if f.get('impl_trait') == 'core::default::Default':
